@@ -12,7 +12,7 @@ func mkDcache(dip *inode.Inode, op *fstxn.FsTxn) {
 	dip.Dcache = dcache.MkDcache()
 	Apply(dip, op, 0, dip.Size, 100000000,
 		func(ip *inode.Inode, name string, inum common.Inum, off uint64) {
-			dip.Dcache.Add(name, inum, off)
+			dip.Dcache.Add(name, inum, off-DIRENTSZ)
 		})
 }
 
